@@ -128,7 +128,7 @@ theorem C20_fault_lookup (cands : List Nat) (maxT : Nat) (b : Body) (dur dist : 
     the table the check compares the real binary with -/
 theorem C20_classes :
     let dur := [some 0, some 10, some 20]; let dist := [some 0, some 15, some 30]; let cands := [4, 7]
-    (["refuse", "drop", "truncate", "http500", "nodurations"].all fun f => lookup cands 100 (faultReply f dur dist) == .stops []) = true ∧
+    (["refuse", "drop", "truncate", "http500", "http503late", "nodurations"].all fun f => lookup cands 100 (faultReply f dur dist) == .stops []) = true ∧
     (["empty", "nonjson", "nulls"].all fun f => lookup cands 100 (faultReply f dur dist) == .throws) = true ∧
     lookup cands 100 (faultReply "fewer" dur dist) = .stops [⟨4, 10, 15⟩] ∧
     lookup cands 100 (faultReply "healthy" dur dist) = .stops [⟨4, 10, 15⟩, ⟨7, 20, 30⟩] := by decide
